@@ -92,8 +92,9 @@ PROPS = {
     "C17": dict(
         level="model_checking",
         technique="explicit-state BFS over all interleavings of application steps (the real IoUring methods, via hook H1) and simulated kernel steps, from every start value of the ring counters incl. wrap; invariants on every state",
-        steps=[_s("h-ring", None, name="ring"), _s("h-ring", None, name="ring-nochk", profile="nochk")],
+        steps=[_s("h-ring", None, name="ring"), _s("h-ring", None, name="ring-nochk", profile="nochk"), _s("h-uring", "ringflags", name="real-rings")],
         assumptions=["kernel side simulated at call granularity (consume 1/all, post 1/all); the index array is the identity as set up by setup_io_uring",
+                     "real-rings step: rings made by the real setup_io_uring for every entry-size flag combination (with and without SQPOLL), sizes 1..8, every start slot x every sequence of batch lengths, NOP entries against the real kernel: binds the model's set-up assumption (identity index array, entry sizes) to the code",
                      "bounded by 2*entries+6 application operations per state space; ring sizes 1,2,4 (thorough: 8)"],
     ),
 
